@@ -154,7 +154,7 @@ def run_dp(case, emit):
     _execute(case, script, {"DS_1": (DP_COMPS, case["rows"])}, ["Id_1", "Id_2", "ruleid"], expected, maybe, cols, bucket, emit)
 
 
-def _execute(case, script, inputs, key_cols, expected, maybe, cols, bucket, emit, forbid_cols=()):
+def _execute(case, script, inputs, key_cols, expected, maybe, cols, bucket, emit, forbid_cols=(), alt=None):
     from vf import eng
     st = eng.structures(*[eng.mkds(n, comps) for n, (comps, _r) in inputs.items()])
     dp = {n: eng.mkdf([c[0] for c in comps], [tuple(r) for r in rows]) for n, (comps, rows) in inputs.items()}
@@ -176,6 +176,8 @@ def _execute(case, script, inputs, key_cols, expected, maybe, cols, bucket, emit
             m = re.search(r"ruleid = '(\d+)'", p[1])
             if m and 1 <= int(m.group(1)) <= len(case["rules"]):      # another rule's position: the numbering follows the engine's sort
                 mech = "check_hierarchy/unnamed-rules-numbered-in-dependency-order"
+        if alt is not None and compare(ds, key_cols, alt[0], alt[1], cols) is None:
+            mech = alt[2]      # the result is exactly what the alternative (listed) reading of the statement gives
         emit({"v": "viol", "b": bucket, "mech": mech, "what": f"{script[:400]} :: {p[1]}", "case": case})
     else:
         trivial = not expected and len(ds.data) == 0
@@ -399,8 +401,18 @@ def run_chk_hier(case, emit):
 
 
 def run_hier(case, emit):
-    mode = case["mode"] or "non_null"
     inp = case["input"] or "rule"
+    expected, maybe, bucket = hier_model(case, inp)
+    alt = None
+    if inp == "dataset":
+        # known finding: the engine (deliberately, an upstream test pins it) lets later rules see computed values in dataset mode
+        e2, m2, _b = hier_model(case, "rule")
+        alt = (e2, m2, "hierarchy/input-mode-dataset-uses-values-computed-by-other-rules")
+    _execute(case, hr_script(case), {"DS_1": (HR_COMPS, case["rows"])}, ["Id_1", "Id_2"], expected, maybe, ["Me_1"], bucket, emit, alt=alt)
+
+
+def hier_model(case, inp):
+    mode = case["mode"] or "non_null"
     output = case["output"] or "computed"
     data = {(r[0], r[1]): r[2] for r in case["rows"]}
     lefts = {r["left"]: r for r in case["rules"]}
@@ -455,7 +467,7 @@ def run_hier(case, emit):
             if k not in expected and k not in maybe:
                 expected[k] = {"Me_1": v}
     bucket = f"hierarchy/{output}{'/default' if case['output'] is None else ''}/{mode}{'/default' if case['mode'] is None else ''}/{inp}{'/default' if case['input'] is None else ''}/{'+'.join(sorted(feats)) or 'plain'}"
-    _execute(case, hr_script(case), {"DS_1": (HR_COMPS, case["rows"])}, ["Id_1", "Id_2"], expected, maybe, ["Me_1"], bucket, emit)
+    return expected, maybe, bucket
 
 
 RUNNERS = {"dp": run_dp, "check": run_ck, "check_hierarchy": run_chk_hier, "hierarchy": run_hier}
